@@ -2,6 +2,11 @@
 equations, so that many primary/secondary splits have a square, invertible and genuinely
 *permuted block-diagonal* secondary block, plus the symbolic enumeration of splits.
 
+Grid GX (one 3-cell grid, variables a,b,c,d, equations q_a..q_d): q_b = 17b + c^2 + d^2 - a has
+purely quadratic couplings, q_c = 18c + b - a, q_d = 19d - a; the states SWAP_STATES make, per
+cell, exactly one of d q_b/d c, d q_b/d d vanish, so the secondary block keeps its shape and its
+number of non-zeros per row while the non-zeros change columns (and the block structure changes).
+
 System (grid G0 = one 3-cell grid, G1 = 2-cell grid + 1-cell fracture + 2-cell interface):
   variables  a, b, c : one dof per cell on every subdomain (created in a chosen order)
              lam     : one dof per interface cell (G1 only, created first)
@@ -24,13 +29,29 @@ import itertools
 
 import numpy as np
 
-CELLS = {"G0": {0: 3}, "G1": {0: 2, 1: 1, 2: 2}}  # rank -> number of cells; G1 rank 2 = interface
-NSD = {"G0": 1, "G1": 2}
+CELLS = {"G0": {0: 3}, "G1": {0: 2, 1: 1, 2: 2}, "GX": {0: 3}}  # rank -> number of cells; G1 rank 2 = interface
+NSD = {"G0": 1, "G1": 2, "GX": 1}
 VARS = ("a", "b", "c")
+VARS_OF = {"G0": VARS, "G1": VARS, "GX": ("a", "b", "c", "d")}
+
+# GX: states in which, per cell, exactly one of the two purely quadratic couplings of q_b
+# (to c and to d) vanishes: key "t" + one bit per cell (1: c == 0, d != 0; 0: c != 0, d == 0).
+# All these states give the secondary block the same shape and the same number of non-zeros
+# in every row, in different columns. "tf": both couplings present everywhere.
+SWAP_STATES = ["t" + "".join(b) for b in itertools.product("01", repeat=3)] + ["tf"]
 
 
 def var_names(grid):
-    return (["lam"] if grid == "G1" else []) + list(VARS)
+    return (["lam"] if grid == "G1" else []) + list(VARS_OF[grid])
+
+
+def swap_splits(var_order, eq_order):
+    """GX splits whose secondary block contains q_b together with c and/or d."""
+    return [
+        {"eqs": [["q_a", [0]]], "vars": [["a", 0]]},
+        {"eqs": [[e, [0]] for e in eq_names("GX", eq_order) if e in ("q_a", "q_c")], "vars": [[v, 0] for v in var_order if v in "ac"]},
+        {"eqs": [[e, [0]] for e in eq_names("GX", eq_order) if e in ("q_a", "q_d")], "vars": [[v, 0] for v in var_order if v in "ad"]},
+    ]
 
 
 def eq_names(grid, eq_order):
@@ -155,7 +176,7 @@ def _mdg(grid):
     import porepy as pp
 
     if grid not in _MDG:
-        if grid == "G0":
+        if grid in ("G0", "GX"):
             _MDG[grid] = pp.meshing.cart_grid([], [3, 1])
         else:
             _MDG[grid] = pp.meshing.cart_grid([np.array([[1, 1], [0, 1]])], [2, 1])
@@ -211,6 +232,19 @@ class LocalSystem:
                 eq = D(_ivec(2, 1, 1, 2)) * lam * lam + D(_ivec(2, 2, 15, 19)) * lam
                 eq = eq + S(_imat(2, n, 1)) @ self.md["a"] + D(np.array([3.0, -2.0]))
                 es.set_equation(eq_named(eq, ename), intfs, {"cells": 1})
+            elif grid == "GX":
+                k = ename[2:]
+                a, b, c, d = (self.md[v] for v in "abcd")
+                if k == "a":
+                    eq = D(np.full(n, 20.0)) * a + b + c + d + S(_imat(n, n, 2)) @ b + D(_ivec(n, 1, -5, 5))
+                elif k == "b":
+                    # purely quadratic couplings: d q_b / d c = 2c, d q_b / d d = 2d
+                    eq = D(np.full(n, 17.0)) * b + c * c + d * d - a + D(_ivec(n, 2, -5, 5))
+                elif k == "c":
+                    eq = D(np.full(n, 18.0)) * c + b - a + D(_ivec(n, 3, -5, 5))
+                else:
+                    eq = D(np.full(n, 19.0)) * d - a + D(_ivec(n, 4, -5, 5))
+                es.set_equation(eq_named(eq, ename), sds, {"cells": 1})
             else:
                 k = ename[2:]
                 eq = None
@@ -244,10 +278,26 @@ class LocalSystem:
         self.row = row_blocks(grid, eq_order)
         # states in global dof order
         s1 = np.arange(self.N) % 3 + 1.0
-        s0 = s1.copy()
-        s0[self.col[("c", 0)][0]] = 0.0
-        self.states = {"s0": s0, "s1": s1}
-        es.set_variable_values(s1.copy(), None, time_step_index=0, iterate_index=0)
+        if grid == "GX":
+            self.states = {}
+            c0, d0 = self.col[("c", 0)][0], self.col[("d", 0)][0]
+            for key in SWAP_STATES:
+                x = s1.copy()
+                for i in range(n):
+                    x[c0 + i], x[d0 + i] = float(i + 1), float(i + 2)
+                    if key != "tf":
+                        if key[1 + i] == "1":
+                            x[c0 + i] = 0.0
+                        else:
+                            x[d0 + i] = 0.0
+                self.states[key] = x
+            self.stored_key = "tf"
+        else:
+            s0 = s1.copy()
+            s0[self.col[("c", 0)][0]] = 0.0
+            self.states = {"s0": s0, "s1": s1}
+            self.stored_key = "s1"
+        es.set_variable_values(self.states[self.stored_key].copy(), None, time_step_index=0, iterate_index=0)
 
     # ---- references
     def primary_rows(self, split):
